@@ -57,6 +57,21 @@ def outcome(fn):
         return "refused"
 
 
+def without_generated_ids(written, given):
+    """Two interpretations of one dictionary are compared as written content; identifiers the library had to invent (an
+    observable without id and without id-contributing properties gets a random UUIDv4) differ between any two calls."""
+    w = json.loads(json.dumps(written))
+    if isinstance(w, dict):
+        if "id" not in given:
+            w.pop("id", None)
+        objs, gobjs = w.get("objects"), given.get("objects")
+        if isinstance(objs, dict) and isinstance(gobjs, dict):
+            for k, o in objs.items():
+                if isinstance(o, dict) and isinstance(gobjs.get(k), dict) and "id" not in gobjs[k]:
+                    o.pop("id", None)
+    return w
+
+
 def write_fs(root, d, legacy=False):
     """Lay d out the way FileSystemSink would (type/id/modified.json or type/id.json).  legacy=True: the older flat layout
     type/id.json for a versioned object, next to another object of the same type in the versioned layout (both are documented
@@ -265,7 +280,8 @@ def wl_dicts(ctx, rng, i):
                         ok = (got == ref)
                     else:
                         ok = (got == "refused") == (ref == "refused")
-                    if ok and mode == "written" and got != "refused" and ref_written is not None and got_written != ref_written:
+                    if ok and mode == "written" and got != "refused" and ref_written is not None and \
+                            without_generated_ids(got_written, d) != without_generated_ids(ref_written, d):
                         ok = False
                         got = "wrote different content"
                     if not ok:
@@ -322,8 +338,8 @@ def wl_produced(ctx, rng, i):
 
 
 WORKLOADS = [
-    Workload("dicts", wl_dicts, quick=lambda: len(SUBJECTS), thorough=lambda: len(SUBJECTS) * 10),
-    Workload("produced", wl_produced, quick=lambda: len(SUBJECTS) * 2, thorough=lambda: len(SUBJECTS) * 20),
+    Workload("dicts", wl_dicts, quick=lambda: len(SUBJECTS), thorough=lambda: len(SUBJECTS) * 100),
+    Workload("produced", wl_produced, quick=lambda: len(SUBJECTS) * 2, thorough=lambda: len(SUBJECTS) * 200),
 ]
 
 
